@@ -10,7 +10,7 @@
  *   - init / clear of buffers, vectors and the rb-set only reset the fields.
  * The leaf decoders ldb_varint32_read and ldb_varint64_read are replaced by
  * their contracts (enforced in cod.* units); ldb_slice_slurp / ldb_slice_read /
- * ldb_zraw_read are the real code (src/util/slice.c linked).
+ * ldb_zraw_read are the real code (src/util/slice.c included).
  */
 #include "verif.h"
 #include "contracts/coding.h"
@@ -109,9 +109,46 @@ int ldb_rb_set_put(rb_tree_t *tree, const void *item) {
   return ins;
 }
 
+#include "util/slice.c"
 #include "version_edit.c"
 
 /* ------------------------------------------------------------- contracts */
+
+/* Cursor-only carriers of the varint readers: what a decoder needs for memory
+ * safety and termination (the value is left arbitrary, so every tag / level /
+ * number is considered at every position).  No byte of the input is mentioned,
+ * which keeps the unbounded unit small.  Enforced against the real functions in
+ * edit.v32cur / edit.v64cur; the full value contracts are in contracts/coding.h. */
+int c_varint32_read_cur(uint32_t *z, const uint8_t **xp, size_t *xn)
+__CPROVER_requires(__CPROVER_w_ok(z, sizeof(*z)) && __CPROVER_rw_ok(xp, sizeof(*xp)) && __CPROVER_rw_ok(xn, sizeof(*xn)))
+__CPROVER_requires(__CPROVER_r_ok(*xp, *xn))
+__CPROVER_assigns(*z, *xp, *xn)
+__CPROVER_ensures(__CPROVER_pointer_in_range_dfcc(__CPROVER_old(*xp), *xp, __CPROVER_old(*xp) + __CPROVER_old(*xn)))
+__CPROVER_ensures(POST_VREAD_CURSOR(__CPROVER_return_value, *xp, *xn, __CPROVER_old(*xp), __CPROVER_old(*xn), 5))
+__CPROVER_ensures(__CPROVER_return_value == 1 ==> *xn < __CPROVER_old(*xn))
+;
+int c_varint64_read_cur(uint64_t *z, const uint8_t **xp, size_t *xn)
+__CPROVER_requires(__CPROVER_w_ok(z, sizeof(*z)) && __CPROVER_rw_ok(xp, sizeof(*xp)) && __CPROVER_rw_ok(xn, sizeof(*xn)))
+__CPROVER_requires(__CPROVER_r_ok(*xp, *xn))
+__CPROVER_assigns(*z, *xp, *xn)
+__CPROVER_ensures(__CPROVER_pointer_in_range_dfcc(__CPROVER_old(*xp), *xp, __CPROVER_old(*xp) + __CPROVER_old(*xn)))
+__CPROVER_ensures(POST_VREAD_CURSOR(__CPROVER_return_value, *xp, *xn, __CPROVER_old(*xp), __CPROVER_old(*xn), 10))
+__CPROVER_ensures(__CPROVER_return_value == 1 ==> *xn < __CPROVER_old(*xn))
+;
+void h_v32cur(void) {
+  IN_SIZE(in_n); IN_BUF(buf, in_n); SNAP_BUF(buf, in_n);
+  uint32_t z = 7; const uint8_t *p = buf; size_t n = in_n;
+  int r = ldb_varint32_read(&z, &p, &n);
+  CHECK(POST_VREAD_CURSOR(r, p, n, buf, in_n, 5) && (r != 1 || n < in_n), "varint32_read: consumes 1..5 bytes on success, never past the end");
+  CANARY();
+}
+void h_v64cur(void) {
+  IN_SIZE(in_n); IN_BUF(buf, in_n); SNAP_BUF(buf, in_n);
+  uint64_t z = 7; const uint8_t *p = buf; size_t n = in_n;
+  int r = ldb_varint64_read(&z, &p, &n);
+  CHECK(POST_VREAD_CURSOR(r, p, n, buf, in_n, 10) && (r != 1 || n < in_n), "varint64_read: consumes 1..10 bytes on success, never past the end");
+  CANARY();
+}
 
 #define EDIT_EMPTY(e) ((e)->comparator.data == NULL && (e)->comparator.size == 0 && (e)->comparator.alloc == 0 && \
   (e)->log_number == 0 && (e)->prev_log_number == 0 && (e)->next_file_number == 0 && (e)->last_sequence == 0 && \
